@@ -18,6 +18,7 @@ def run(ctx):
     cli.rule_encoder_selection(ctx)
     # certificate flag: the shortcut taken only without a certificate quantifies over the listed arguments like the full search
     accept.rule_list_quantifiers(ctx)
+    accept.rule_status_certificate_pairing(ctx)
     # back end: the searches constrain the solver only through the split of the current set and the selector (a model-dependent extra
     # assumption makes the result depend on which model the back end returns first)
     progress.rule_blocking(ctx)
